@@ -62,7 +62,9 @@ def dry_xml(bad: bool, vanished: bool, target: bool, nf: int, line: int, results
 
 
 # ------------------------------------------------------------------ manifest writers
-REQ_TXT = {0: "requests==2.31.0\n# comment\nflask\n", 1: "requests==2.31.0", 2: "defusedxml==0.7.0\n"}
+REQ_TXT = {0: "requests==2.31.0\n# comment\nflask\n", 1: "requests==2.31.0", 2: "defusedxml==0.7.0\n",
+           # a manifest that is not UTF-8 (PowerShell `pip freeze >` writes UTF-16 with a BOM): codemodder cannot update it
+           3: "requests==2.31.0\n".encode("utf-16")}
 SETUP_CFG = {
     0: "[metadata]\nname = x\n\n[options]\ninstall_requires =\n    requests\n    flask\n\n[options.extras_require]\ntest = pytest\n",
     1: "[options]\ninstall_requires = requests, flask\n",
@@ -189,7 +191,7 @@ def _dry_writer(kind: int, variant: int, declared: bool, two_deps: bool) -> bool
 def dry_writer_requirements(variant: int, declared: bool, two_deps: bool) -> bool:
     """DependencyManager.write -> RequirementsTxtWriter: with dry_run the manifest is never opened for writing
     and the ChangeSet equals the one of the real run; real run: ChangeSet <=> manifest rewritten.
-    pre: 0 <= variant < 3
+    pre: 0 <= variant < 4
     post: _
     """
     return _dry_writer(0, variant, declared, two_deps)
@@ -305,7 +307,7 @@ def planted_dry_write(kind: int, c1: bool, a1: bool) -> bool:
 def warmup():
     skel.warm()
     for k in range(4):
-        for v in range(3):
+        for v in range(4 if k == 0 else 3):
             for d in (False, True):
                 _run_writer(k, v, d, True, True)
                 _run_writer(k, v, d, False, False)
